@@ -102,6 +102,56 @@ Fixpoint run_queries (opts : list rule) (c : cache) (qs : list obj) : list (outc
   | o :: r => let '(x, c') := doc_privacyClass opts c o in x :: run_queries opts c' r
   end.
 
+(* ---- Documentable.isPrivate / isVisible (properties; nothing is stored on the object: the only cache is the
+   System's) ------------------------------------------------------------------------------------------- *)
+Definition priv_eqb (a b : priv) : bool :=
+  match a, b with
+  | HIDDEN, HIDDEN | PRIVATE, PRIVATE | PUBLIC, PUBLIC => true
+  | _, _ => false
+  end.
+
+(* return self.privacyClass is not PrivacyClass.PUBLIC *)
+Definition is_private (opts : list rule) (c : cache) (o : obj) : outcome bool * cache :=
+  let '(r, c') := doc_privacyClass opts c o in
+  (bind r (fun p => Ok (negb (priv_eqb p PUBLIC))), c').
+
+(* isVisible = self.privacyClass is not HIDDEN
+   if isVisible and self.parent: isVisible = self.parent.isVisible          (parents: nearest first, up to the root) *)
+Fixpoint is_visible (opts : list rule) (c : cache) (o : obj) (parents : list obj) : outcome bool * cache :=
+  let '(r, c') := doc_privacyClass opts c o in
+  match r with
+  | Err e => (Err e, c')
+  | Ok p =>
+    if priv_eqb p HIDDEN then (Ok false, c')
+    else match parents with
+         | [] => (Ok true, c')
+         | q :: ps => is_visible opts c' q ps
+         end
+  end.
+
+(* a sequence of mixed queries against one System *)
+Inductive query : Type :=
+| QPrivacy (o : obj)
+| QVisible (o : obj) (parents : list obj)
+| QPrivate (o : obj).
+
+Inductive answer : Type :=
+| ALevel (r : outcome priv)
+| ABool (r : outcome bool).
+
+Definition ask (opts : list rule) (c : cache) (q : query) : answer * cache :=
+  match q with
+  | QPrivacy o => let '(x, c') := doc_privacyClass opts c o in (ALevel x, c')
+  | QVisible o ps => let '(x, c') := is_visible opts c o ps in (ABool x, c')
+  | QPrivate o => let '(x, c') := is_private opts c o in (ABool x, c')
+  end.
+
+Fixpoint run_asks (opts : list rule) (c : cache) (qs : list query) : list answer :=
+  match qs with
+  | [] => []
+  | q :: r => let '(x, c') := ask opts c q in x :: run_asks opts c' r
+  end.
+
 (* ---- utils.parse_privacy_tuple ---------------------------------------------------- *)
 (* str.split(':') *)
 Fixpoint split_colon (s : text) (cur : text) : list text :=
@@ -145,14 +195,26 @@ Definition privacy_by_name (s : text) : option priv :=
   else if text_eqb s n_VISIBLE then Some PUBLIC
   else None.
 
+(* the three ways out of parse_privacy_tuple: the tuple, or one of the two error(...) calls (print + SystemExit(1)) *)
+Inductive parse_result : Type :=
+| ParsedRule (r : rule)
+| Malformatted                    (* "malformatted value ... should be like '<privacy>:<PATTERN>'" *)
+| UnknownLevel (part : text).     (* "unknown privacy value {parts[0]!r} should be one of 'HIDDEN', 'PRIVATE', 'PUBLIC'" *)
+
+Definition parse_privacy_tuple_result (value : text) : parse_result :=
+  match split_colon value [] with
+  | [a; b] =>                                       (* len(parts) == 2 *)
+    match privacy_by_name (upper (strip a)) with    (* try: model.PrivacyClass[parts[0].strip().upper()] *)
+    | Some p => ParsedRule (p, strip b)             (* else: return (priv, parts[1].strip()) *)
+    | None => UnknownLevel a                        (* except: error(...) *)
+    end
+  | _ => Malformatted
+  end.
+
 (* None = error(...) = SystemExit *)
 Definition parse_privacy_tuple (value : text) : option rule :=
-  match split_colon value [] with
-  | [a; b] =>
-    match privacy_by_name (upper (strip a)) with
-    | Some p => Some (p, strip b)
-    | None => None
-    end
+  match parse_privacy_tuple_result value with
+  | ParsedRule r => Some r
   | _ => None
   end.
 
@@ -191,17 +253,28 @@ Definition obj_of_sexp (s : sexp) : obj :=
   {| o_full := to_text (nth_s 0 s); o_name := to_text (nth_s 1 s);
      o_has_kind := to_bool (nth_s 2 s); o_is_module := to_bool (nth_s 3 s) |}.
 
+(* query := ( full name has_kind is_module [ kind [ parents ] ] )   kind: 0 privacyClass, 1 isVisible, 2 isPrivate *)
+Definition query_of_sexp (s : sexp) : query :=
+  match to_Z (nth_s 4 s) with
+  | 1%Z => QVisible (obj_of_sexp s) (map obj_of_sexp (to_list (nth_s 5 s)))
+  | 2%Z => QPrivate (obj_of_sexp s)
+  | _ => QPrivacy (obj_of_sexp s)
+  end.
+Definition of_answer (a : answer) : sexp :=
+  match a with ALevel r => of_outcome of_priv r | ABool r => of_outcome of_bool r end.
+
 (* input := ( op arg ... )
      0 pat                  translate                       -> outcome text
      1 pat alphabet maxlen  qnmatch(name, pat) for all names -> outcome (packed booleans)
      2 pat name             qnmatch                          -> outcome bool
      3 pat alphabet maxlen  Spec.Glob                        -> ( wf packed-booleans )
      4 pat name             Spec.Glob                        -> ( wf matches )
-     5 rules queries        privacyClass on one System       -> list of outcome level
-     6 value                parse_privacy_tuple              -> ( 0 level pattern ) | ( 1 )
+     5 rules queries        privacyClass / isVisible / isPrivate on one System -> list of outcome (level | bool)
+     6 value                parse_privacy_tuple              -> ( 0 level pattern ) | ( 1 kind part )  kind 1 malformatted, 2 unknown level
      7 text                 re.escape of each character      -> list of text
      8 text                 upper of each / isspace of each  -> ( text , list bool )
-     9 regex name           Spec.ReFrag on a raw regex       -> outcome bool                *)
+     9 regex name           Spec.ReFrag on a raw regex       -> outcome bool
+    10 pat name             qnmatch with the table matcher   -> outcome bool   (= op 2 by match_linear_spec) *)
 Definition run (s : sexp) : sexp :=
   let a1 := nth_s 1 s in
   let a2 := nth_s 2 s in
@@ -218,16 +291,16 @@ Definition run (s : sexp) : sexp :=
     let ts := lex (to_text a1) in
     L [of_bool (forallb tok_wf ts); pack_bools (map (gmatch ts) (all_names (to_text a2) (to_nat a3)))]
   | 4%Z => L [of_bool (wf_pattern (to_text a1)); of_bool (matches (to_text a1) (to_text a2))]
-  | 5%Z =>
-    L (map (of_outcome of_priv)
-           (run_queries (map rule_of_sexp (to_list a1)) [] (map obj_of_sexp (to_list a2))))
+  | 5%Z => L (map of_answer (run_asks (map rule_of_sexp (to_list a1)) [] (map query_of_sexp (to_list a2))))
   | 6%Z =>
-    match parse_privacy_tuple (to_text a1) with
-    | Some (p, m) => L [A 0%Z; of_priv p; of_text m]
-    | None => L [A 1%Z]
+    match parse_privacy_tuple_result (to_text a1) with
+    | ParsedRule (p, m) => L [A 0%Z; of_priv p; of_text m]
+    | Malformatted => L [A 1%Z; A 1%Z; L []]
+    | UnknownLevel part => L [A 1%Z; A 2%Z; of_text part]
     end
   | 7%Z => L (map (fun c => of_text (re_escape c)) (to_text a1))
   | 8%Z => L [of_text (upper (to_text a1)); L (map (fun c => of_bool (py_isspace c)) (to_text a1))]
   | 9%Z => of_outcome of_bool (match_re (read_re (to_text a1)) (to_text a2))
+  | 10%Z => of_outcome of_bool (bind (compile_pattern (to_text a1)) (fun re => Ok (match_linear re (to_text a2))))
   | _ => bad_input
   end.
